@@ -62,6 +62,10 @@ CLAIMED = {
    technique="bounded-exhaustive enumeration through the registered .201/.202 codecs (sizes x formats x block sizes x levels x contents), exhaustive HT block-coder round trip over small blocks, and the finite set of 14 third-party codestreams",
    text="Codec level: 100+ sizes (all 1..8^2, 1..3 x 9..20 both ways, larger) x 5 formats x SPP {1,3} x 6 block shapes x NumLevels 0..6 (rotated sub-product) x {all images over {0,1,MAX} for <= 4 samples, 11 content families}, typed/generic/nil parameters. Block level: every block with <= 6 samples within 4x4 (and 1xn/nx1) x Kmax {2,5,9,17} x every coefficient block over {0,+-1,+-2,+-(2^(K-1)-1)} through NewHTEncoder/NewHTDecoder with the pipeline's coding-context protocol. Fixtures: all 14 OpenJPH/fo-dicom lossless codestreams decode to input.raw.",
    note="HTJ2K costs ~1.5 ms per case, so quick runs 1/8 of the codec-level product (thorough 1/2). The codec declares BitsAllocated as precision, so every byte content is in its domain."),
+ "C16": dict(engine="E1 space + strict walkers", design="§4 C16",
+   technique="bounded-exhaustive enumeration of encoder x geometry x parameter x content with independent strict marker walkers (JPEG/JPEG-LS/JPEG 2000), plus exhaustive enumeration of all bit strings up to a length bound through the three bit writers",
+   text="Every bit string of length <= 16 (thorough 20) through standard.HuffmanEncoder, the JPEG-LS GolombWriter and the JPEG 2000 packet-header bioWriter: escaping/stuffing, no marker emulation, no trailing 0xFF, read-back, byte alignment (this component check is what pins the 0xFF-terminated packet header defect fixed under C04). All 164 pass-count codewords. Streams of 10 encoders over sizes incl. 256x1, 257x2, 65535x1, 1x65535, components, precisions, predictors, NEAR, quality, levels, layers, progressions, 192 tile grids up to 64 tiles and noise images are walked: SOI/SOC first, segment lengths, no unescaped marker in entropy data, Psot/TLM sums, EOI/EOC last with nothing after, declared geometry/precision/sign/NEAR/predictor/transform equal to the arguments.",
+   note="Trusted: the walkers. MQ-coder output constraints are asserted on every sequence of the C20 space."),
 }
 NOT_APPLICABLE = {}
 
